@@ -142,6 +142,7 @@ def run(tier, seed):
     arity_law(chk)
     separator_law(chk)
     qualifier_law(chk)
+    keyword_columns_law(chk)
     glue_law(chk, [t for t, valid in texts if valid], tier)
     sensitivity_law(chk, [t for t, valid in texts if valid], tier)
     return chk.finish()
@@ -246,6 +247,20 @@ def qualifier_law(chk):
         if a == b:
             chk.violation({'why': 'a sheet qualifier inside a reference is consumed and ignored: the formula translates to the class of the formula without it', 'formula': with_q,
                            'same_as': without, 'stream': 'qualifier-law'})
+
+
+def keyword_columns_law(chk):
+    """columns whose letters spell a function name (IF, OR, AND, SUM, MAX, DAY, MIN, MID …) are columns: IF1 is a cell, IF( is the function"""
+    forms = ['=IF1+OR2+SUM3+MAX4+DAY5+AND6+1', '=IF(IF1=0,"z","nz")', '=SUM(IF1:IF3,OR1)+2', '=IFERROR(10/IF2,"n/a")', '=IFS(IF1>50,"big",TRUE,"small")', '=MAX(MIN1,MID2,3)',
+             '=COUNT(SUM1:SUM2)', '=DAY1+AND2*OR3']
+    want = ['I1', core.enc('z'), 'I2', core.enc('n/a'), core.enc('small'), 'I3', 'I0', 'I0']
+    outs = realcode.eval_formulas(forms, {(0, 0): 1})
+    for f, o, w in zip(forms, outs, want):
+        chk.count('law:keyword-columns')
+        chk.seen(('kwcol', f))
+        if o.startswith('E') and o[1:] in ('Parser', 'Cell') or (w is not None and o != w):
+            chk.violation({'why': 'a reference to a cell in a column whose letters spell a function name is not read as a reference', 'formula': f, 'impl': o, 'want': w,
+                           'stream': 'keyword-columns'})
 
 
 def glue_law(chk, texts, tier):
